@@ -1,12 +1,12 @@
 """C14 scenarios: streaming KZG (time vs space provers, verifier, folding iterators)."""
 from .proto import Case
-from .gen_common import rf_uniform, rf, rf_nz, R_BLS381
+from .gen_common import rf_uniform, rf, rf_nz, sweep_choice, R_BLS381
 
 P = R_BLS381
 
 
 def _poly(rng, deg_max):
-    shape = rng.choice(["dense", "dense", "dense", "short", "zero_top", "zero_low", "sparse", "empty", "const"])
+    shape = sweep_choice(rng, ("c14_poly",), ["dense", "dense", "dense", "short", "zero_top", "zero_low", "sparse", "empty", "const"])
     if shape == "empty":
         return [], shape
     if shape == "const":
